@@ -1,6 +1,6 @@
 INIT Init
 NEXT Next
-CONSTANT Ns = {0, 1, 2, 3, 32, 64, 255}
+CONSTANT Ns = {0, 1, 3, 32, 64, 255}
 CONSTANT Wide = TRUE
 INVARIANT DivisionLemma
 INVARIANT IntervalExact
